@@ -54,3 +54,52 @@ fn(P + 'flat.unit_grid', properties=['C14'], cases=[{'triangulate': False, 'gene
             'all(all(result.vertices._data[gid(i,j,nv)][2] == 0 and 0 <= result.vertices._data[gid(i,j,nv)][0] and result.vertices._data[gid(i,j,nv)][0] <= 1 '
             '    and 0 <= result.vertices._data[gid(i,j,nv)][1] and result.vertices._data[gid(i,j,nv)][1] <= 1 for j in range(nv)) for i in range(nu))'],
    )
+
+# ---------------------------------------------------------------- torus
+predicate('tface', 'm, i, j, M, mm, tri', '''(row4(m.faces._data[gid(i,j,mm)], gid(i,j,mm), gid(i,(j+1)%mm,mm), gid((i+1)%M,(j+1)%mm,mm), gid((i+1)%M,j,mm)) if not tri else
+    (row3(m.faces._data[2*gid(i,j,mm)], gid(i,j,mm), gid(i,(j+1)%mm,mm), gid((i+1)%M,j,mm))
+     and row3(m.faces._data[2*gid(i,j,mm)+1], gid(i,(j+1)%mm,mm), gid((i+1)%M,(j+1)%mm,mm), gid((i+1)%M,j,mm))))''')
+predicate('on_torus', 'p, R, r', '(sq3(p) + R*R - r*r)*(sq3(p) + R*R - r*r) == 4*R*R*(p[0]*p[0] + p[1]*p[1])')
+
+fn(P + 'shapes.torus', properties=['C14'],
+   params={'major_segments': 'int', 'minor_segments': 'int', 'major_radius': 'real', 'minor_radius': 'real', 'triangulate': 'bool'},
+   returns='BuiltMesh', cases=[{'triangulate': False}, {'triangulate': True}], lemmas=['gid-inj', 'gid-range'],
+   requires=['major_segments >= 3', 'minor_segments >= 3'],
+   locals={'out': 'RawMeshData'},
+   lets={'M': 'major_segments', 'mm': 'minor_segments', 'k': '(2 if triangulate else 1)'},
+   loops={0: loop(invariant=['empty_attrs(out)', 'len(out.vertices._data) == it0*mm', 'len(out.faces._data) == 0',
+                             ]),
+          1: loop(invariant=['empty_attrs(out)', 'len(out.vertices._data) == it0*mm + it1', 'len(out.faces._data) == 0',
+                             ]),
+          2: loop(invariant=['empty_attrs(out)', 'len(out.vertices._data) == M*mm', 'len(out.faces._data) == k*(it2*mm)',
+                             'all(all(tface(out, i, j, M, mm, triangulate) for j in range(mm)) for i in range(it2))']),
+          3: loop(invariant=['empty_attrs(out)', 'len(out.vertices._data) == M*mm', 'len(out.faces._data) == k*(it2*mm + it3)',
+                             'i_next == (it2+1) % M',
+                             'all(all(tface(out, i, j, M, mm, triangulate) for j in range(mm)) for i in range(it2))',
+                             'all(tface(out, it2, j, M, mm, triangulate) for j in range(it3))'])},
+   ensures=['len(result.vertices._data) == M*mm', 'len(result.faces._data) == k*M*mm',
+            # every quad (i,j) joins ring i to ring i+1 (mod M) and column j to j+1 (mod m): both directions wrap
+            'all(all(tface(result, i, j, M, mm, triangulate) for j in range(mm)) for i in range(M))'],
+   note='vertices on the implicit torus surface: degree-4 NRA under a quantified invariant destabilises z3 -> bounded stand-in (native)')
+
+# ---------------------------------------------------------------- cylinder (combinatorics)
+fn(P + 'shapes.cylinder', properties=['C14'],
+   params={'P1': 'Vec3', 'P2': 'Vec3', 'radius': 'real', 'N': 'int', 'fill_caps': 'bool'}, returns='BuiltMesh',
+   cases=[{'fill_caps': True}, {'fill_caps': False}],
+   requires=['N >= 3', 'dist2(P1, P2) > 0'],
+   locals={'cy': 'RawMeshData'},
+   lets={'c': '(2*N if fill_caps else 0)'},
+   loops={0: loop(invariant=['empty_attrs(cy)', 'len(cy.faces._data) == 0',
+                             'len(cy.vertices._data) == N*it0'], unroll=True),
+          1: loop(invariant=['empty_attrs(cy)', 'len(cy.faces._data) == 0', 'len(cy.vertices._data) >= 0',
+                             'len(cy.vertices._data) == N*it0 + it1'], label='ring'),
+          2: loop(invariant=['empty_attrs(cy)', 'len(cy.vertices._data) == 2*N + 2', 'len(cy.faces._data) == 2*it2',
+                             'all(row3(cy.faces._data[2*i], i, (i+1)%N, 2*N) and row3(cy.faces._data[2*i+1], i+N, 2*N+1, (i+1)%N+N) for i in range(it2))']),
+          3: loop(invariant=['empty_attrs(cy)', 'len(cy.vertices._data) == 2*N + (2 if fill_caps else 0)', 'len(cy.faces._data) == c + 2*it3',
+                             'implies(fill_caps, all(row3(cy.faces._data[2*i], i, (i+1)%N, 2*N) and row3(cy.faces._data[2*i+1], i+N, 2*N+1, (i+1)%N+N) for i in range(N)))',
+                             'all(row3(cy.faces._data[c+2*i], i, N+i, (i+1)%N) and row3(cy.faces._data[c+2*i+1], N+i, N+(i+1)%N, (i+1)%N) for i in range(it3))'])},
+   ensures=['len(result.vertices._data) == 2*N + (2 if fill_caps else 0)', 'len(result.faces._data) == c + 2*N',
+            # caps: fan around the two centre vertices 2N (bottom) and 2N+1 (top), opposite orientations
+            'implies(fill_caps, all(row3(result.faces._data[2*i], i, (i+1)%N, 2*N) and row3(result.faces._data[2*i+1], i+N, 2*N+1, (i+1)%N+N) for i in range(N)))',
+            # side: two triangles per segment between ring i (bottom) and ring N+i (top)
+            'all(row3(result.faces._data[c+2*i], i, N+i, (i+1)%N) and row3(result.faces._data[c+2*i+1], N+i, N+(i+1)%N, (i+1)%N) for i in range(N))'])
